@@ -203,6 +203,13 @@ class C13(Prop):
                 return ("zero_score_winner", "randomized rule returned alternative %r whose score is %r" % (ob, sc[ob] if 0 <= ob < m else None))
             if ob != ch["r"]:
                 return ("wrong_draw", "returned alternative differs from the sampler's draw")
+            ia, ib = a.get("inner"), b.get("inner")
+            if ia is not None and ib is not None:      # the exposed deterministic rule (tie-breaker 'random', same seed in both runs)
+                mx = max(sc)
+                if isinstance(ib, list) or not (0 <= ib < m) or sc[ib] != mx:
+                    return ("inner_rule_contract", "%s.voting_rule.scf returned %r, not a maximiser of %r" % (case["rule"], ib, sc))
+                if ia != ib + 1:
+                    return ("index_shift", "%s.voting_rule: one-indexed winner %r is not the zero-indexed winner %r plus one" % (case["rule"], ia, ib))
             return None
         mx = max(sc); maxi = [j for j in range(m) if sc[j] == mx]
         if case["tb"] == "accept" and ob != maxi:
